@@ -284,6 +284,19 @@ class Interp:
                     raise Panic("division by zero")
                 raise Undecided("divisor may be zero")
             cy = y.const()
+            if cy is not None and cy > 1 and cy & (cy - 1) == 0 and x.lo >= 0:
+                # division / remainder by 2^k of a non-negative value is the shift / the mask (same knowledge about the bits)
+                k = cy.bit_length() - 1
+                if op == "Div":
+                    r = self.arith("Shr", x, AI("u32", k, k), ty)
+                    return (r, AI("bool", 0, 0)) if want_overflow else r
+                if not getattr(self, "_in_rem", False):
+                    self._in_rem = True
+                    try:
+                        r = self.arith("BitAnd", x, AI(ty, cy - 1, cy - 1), ty)
+                    finally:
+                        self._in_rem = False
+                    return (r, AI("bool", 0, 0)) if want_overflow else r
             if op == "Div":
                 cands = [trunc_div(a, b) for a in (x.lo, x.hi) for b in (y.lo, y.hi)]
                 lo, hi = min(cands), max(cands)
